@@ -247,12 +247,12 @@ func (t *TimestampType) Parameters() []px.Value {
 		if t.min.Equal(MinTime) {
 			return px.EmptyValues
 		}
-		return []px.Value{stringValue(t.min.String())}
+		return []px.Value{stringValue(WrapTimestamp(t.min).String())}
 	}
 	if t.min.Equal(MinTime) {
-		return []px.Value{WrapDefault(), stringValue(t.max.String())}
+		return []px.Value{WrapDefault(), stringValue(WrapTimestamp(t.max).String())}
 	}
-	return []px.Value{stringValue(t.min.String()), stringValue(t.max.String())}
+	return []px.Value{stringValue(WrapTimestamp(t.min).String()), stringValue(WrapTimestamp(t.max).String())}
 }
 
 func (t *TimestampType) ReflectType(c px.Context) (reflect.Type, bool) {
